@@ -16,7 +16,7 @@ from okdmr.dmrlib.etsi.fec.golay_20_8_7 import Golay2087
 from okdmr.dmrlib.etsi.fec.quadratic_residue_16_7_6 import QuadraticResidue1676
 
 
-@contract("SlotType.from_bits.all_words", "okdmr.dmrlib.etsi.layer2.pdu.slot_type:SlotType.from_bits", ["C04", "C01"])
+@contract("SlotType.from_bits.all_words", "okdmr.dmrlib.etsi.layer2.pdu.slot_type:SlotType.from_bits", ["C04"])
 def slot_all_words(vc):
     w = vc.bits(20, "w")
     keep = w.copy()
@@ -28,7 +28,7 @@ def slot_all_words(vc):
     vc.prove("colour_code_is_the_first_nibble", vc.eq(s.colour_code, vc.from_bits(keep.tolist()[:4])))
 
 
-@contract("EmbeddedSignalling.from_bits.all_words", "okdmr.dmrlib.etsi.layer2.pdu.embedded_signalling:EmbeddedSignalling.from_bits", ["C04", "C01"])
+@contract("EmbeddedSignalling.from_bits.all_words", "okdmr.dmrlib.etsi.layer2.pdu.embedded_signalling:EmbeddedSignalling.from_bits", ["C04"])
 def emb_all_words(vc):
     w = vc.bits(16, "w")
     keep = w.copy()
